@@ -14,6 +14,61 @@ pub proof fn lemma_first_index_append(s: Seq<u8>, t: Seq<u8>, c: u8)
     lemma_first_index_bounds(st, c);
 }
 
+// [props: C01 C04 C05 C06 C08 C12 C16 C18]
+/// a text without CR is its own window and is never accepted; neither is any prefix of it
+pub proof fn lemma_no_cr_prefix(b: Seq<u8>, v: int)
+    requires first_index_of(b, 13u8) >= b.len(), 0 <= v <= b.len()
+    ensures v1_window(b) =~= b, v1_window(b.subrange(0, v)) =~= b.subrange(0, v),
+        first_index_of(b.subrange(0, v), 13u8) >= v, !(header_verdict(b.subrange(0, v)) is Accept),
+        !v1_terminated(b.subrange(0, v)), !v1_terminated(b),
+{
+    broadcast use crate::prelude::prelude_str_axioms;
+    lemma_first_index_bounds(b, 13u8);
+    let p = b.subrange(0, v);
+    lemma_first_index_prefix(b, v, 13u8);
+    lemma_first_index_bounds(p, 13u8);
+    assert(v1_window(p) =~= p);
+    if header_verdict(p) is Accept {
+        lemma_window_accept_w(p);
+    }
+}
+
+/// an accepted window ends with its first CR followed by LF
+pub proof fn lemma_window_accept_w(s: Seq<u8>)
+    requires header_verdict(v1_window(s)) is Accept
+    ensures v1_terminated(s)
+{
+    broadcast use crate::prelude::prelude_str_axioms;
+    let w = v1_window(s);
+    lemma_first_index_bounds(s, 13u8);
+    lemma_accept_shape(w);
+    let n = w.len() as int;
+    assert(w[n - 2] == 13u8) by { assert(w.subrange(n - 2, n)[0] == 13u8); }
+    let cr = first_index_of(s, 13u8);
+    if cr >= s.len() {
+        assert(w =~= s);
+        assert(s[n - 2] == 13u8);
+    } else if cr + 2 > s.len() {
+        assert(w =~= s);
+        assert(cr == s.len() - 1);
+        assert(s[n - 2] != 13u8);
+    }
+}
+
+// [props: C01 C04 C05 C06 C08 C12 C16 C18]
+/// the byte entry point accepts only through its window (never through the cut-character branch, which examines a
+/// text without CR)
+pub proof fn lemma_bytes_accept_window(s: Seq<u8>)
+    requires entry_verdict_bytes(s) matches V1BV::Line(V1V::Accept(_))
+    ensures valid_utf8(v1_window(s)), entry_verdict_bytes(s) == V1BV::Line(header_verdict(v1_window(s))),
+        header_verdict(v1_window(s)) is Accept
+{
+    if !valid_utf8(v1_window(s)) {
+        lemma_utf8_valid_up_to(s);
+        lemma_no_cr_prefix(s, utf8_valid_up_to(s));
+    }
+}
+
 // [props: C04]
 /// an accepted text input followed by any further bytes, and the reported header text on its own,
 /// have the same window and therefore the same verdict; the header length is the window length
@@ -76,6 +131,10 @@ pub proof fn lemma_c16_entries_agree(s: Seq<u8>)
     let n = v1_window(s).len() as int;
     lemma_utf8_prefix_iff_boundary(s, n);
     assert(valid_utf8(v1_window(s)) == str_cut_ok(s, n)) by { reveal(valid_utf8); };
+    if first_index_of(s, 13u8) >= s.len() {
+        assert(v1_window(s) =~= s);
+        assert(valid_utf8(v1_window(s))) by { reveal(valid_utf8); };
+    }
 }
 
 // [props: C06]
@@ -87,6 +146,7 @@ pub proof fn lemma_c06_exclusive(s: Seq<u8>)
     ensures v2_class(s) == 2
 {
     broadcast use crate::prelude::prelude_str_axioms;
+    lemma_bytes_accept_window(s);
     let w = v1_window(s);
     lemma_accept_shape(w);
     assert(w.subrange(0, 5)[0] == 80u8);
